@@ -259,6 +259,19 @@ EXTRA5 = {
 }
 for _pid, _extra in EXTRA5.items():
     EXTRA[_pid] = EXTRA.get(_pid, "") + _extra
+# clauses added after seeding round 6 (DESIGN.md section 11, round 6)
+_RAW = (" An entry that is still an offset is read through the raw line reader: exactly one trailing '\\n' removed, no slice of the mapping "
+        "bounded by an unchecked find().")
+EXTRA6 = {
+    "C12": _RAW + " Every call of the writer from a function with a line_ending parameter passes that parameter on.",
+    "C13": _RAW + " JsonRecord.load does not keep or drop a field by looking at its value.",
+    "C14": " Every path through close() drops the cached read handles.",
+    "C16": " The outcome of a look-up does not depend on a test of the stored value.",
+    "C18": " The re-open test compares the recorded owner with os.getpid() (also when the owner is read into a local first).",
+    "C19": " No guard clause in front of a window scan returns for lengths that have a window.",
+}
+for _pid, _extra in EXTRA6.items():
+    EXTRA[_pid] = EXTRA.get(_pid, "") + _extra
 for _pid, _extra in EXTRA.items():
     if _extra and _extra.strip() not in CLAIMS[_pid]["text"]:
         CLAIMS[_pid]["text"] = CLAIMS[_pid]["text"].rstrip() + _extra
